@@ -22,7 +22,7 @@ import (
 )
 
 type op struct {
-	Kind  string // create | savepoint | ackop | acksr | restart | newassembly
+	Kind  string // create | savepoint | ackop | acksr | restart | newassembly | failwrite (the storage refuses the next write of a job snapshot file)
 	Who   int    // index into expected ∪ foreign members
 	IDOff int    // 0 = the pending id, -1 stale, +1 future
 	State []byte
@@ -45,7 +45,7 @@ func gen(rt *rapid.T) prog {
 	n := rapid.IntRange(2, 50).Draw(rt, "n")
 	for i := 0; i < n; i++ {
 		p.Ops = append(p.Ops, op{
-			Kind:  rapid.SampledFrom([]string{"create", "create", "savepoint", "ackop", "ackop", "ackop", "ackop", "acksr", "acksr", "acksr", "acksr", "restart", "newassembly"}).Draw(rt, "kind"),
+			Kind:  rapid.SampledFrom([]string{"create", "create", "savepoint", "ackop", "ackop", "ackop", "ackop", "acksr", "acksr", "acksr", "acksr", "restart", "newassembly", "failwrite"}).Draw(rt, "kind"),
 			Who:   rapid.SampledFrom([]int{0, 0, 0, 0, 1, 1, 2, 3, 4, 5}).Draw(rt, "who"),
 			IDOff: rapid.SampledFrom([]int{0, 0, 0, 0, 0, -1, 1}).Draw(rt, "idoff"),
 			State: rapid.SliceOfN(rapid.Byte(), 0, 3).Draw(rt, "state"),
@@ -142,7 +142,41 @@ func exec(p prog, c *hx.Case) error {
 	snapPath := func(id uint64) string { return "" }
 	_ = snapPath
 	// waitPublished waits for the publication event and verifies the file
+	failArmed := false
+	failedPubs := 0
 	verify := func(step int, pd *pending) error {
+		if failArmed {
+			// The storage refuses the snapshot write: the checkpoint is complete but
+			// cannot be persisted, so none of the three parts of its publication may
+			// happen: no event, no retention announcement, not used for recovery.
+			failArmed = false
+			select {
+			case <-errc:
+			case uri := <-events:
+				return hx.Errf("step %d: snapshot %s was announced although the storage refused to write it", step, filepath.Base(uri))
+			case <-time.After(10 * time.Second):
+				return hx.Errf("step %d: the write of checkpoint %d's snapshot failed but the store reported nothing within 10s", step, pd.id)
+			}
+			failedPubs++
+			time.Sleep(100 * time.Microsecond)
+			if cur := store.CurrentCheckpoint(); cur.GetId() == pd.id {
+				return hx.Errf("step %d: CurrentCheckpoint is %d although that checkpoint's snapshot could not be written (the newest persisted one is %d)", step, pd.id, maxPublished)
+			}
+			for {
+				select {
+				case ids := <-retained:
+					for _, id := range ids {
+						if id == pd.id {
+							return hx.Errf("step %d: checkpoint %d was announced for retention although its snapshot could not be written", step, pd.id)
+						}
+					}
+					continue
+				default:
+				}
+				break
+			}
+			return nil
+		}
 		select {
 		case uri := <-events:
 			data, err := loc.Read(uri)
@@ -351,6 +385,11 @@ func exec(p prog, c *hx.Case) error {
 			}
 			pend.srs[who] = true
 			pend.states = append(pend.states, states...)
+		case "failwrite":
+			if !failArmed && o.Who >= 2 {
+				loc.FailNextWrites(1, ".snapshot")
+				failArmed = true
+			}
 		case "newassembly":
 			// the job lost its assembly and starts a new one (jobs.Job.start): a
 			// checkpoint in flight can never complete and is given up; its id stays
@@ -418,6 +457,7 @@ func exec(p prog, c *hx.Case) error {
 		c.NonTrivial()
 	}
 	c.LabelIf(restarts > 0, "restart")
+	c.LabelIf(failedPubs > 0, "snapshot-write-refused-by-the-storage")
 	c.LabelIf(dups > 0, "acknowledgement-retried-while-it-completes-the-checkpoint")
 	c.LabelIf(abandoned > 0, "pending-checkpoint-abandoned-for-a-new-assembly")
 	c.LabelIf(p.SharedIDs, "operator-and-source-runner-share-an-id")
@@ -426,5 +466,5 @@ func exec(p prog, c *hx.Case) error {
 }
 
 func TestPropStore(t *testing.T) {
-	hx.Run(t, hx.Spec{Prop: "C12", Rule: "snapshots.Store over a journaling in-memory StorageLocation with assemblies of 1..4 operators and 1..4 source runners: 2..50 calls of CreateCheckpoint / CreateSavepoint / AddOperatorSnapshot / AddSourceSnapshot (expected, duplicate, foreign senders; pending, stale, future ids) / restart (new Store + LoadCheckpoint) / a new assembly (AbandonPendingSnapshot + RegisterSourceSplitter, as jobs.Job.start does; the abandoned id stays used and later acknowledgements for it are foreign); in a quarter of the cases operator i and source runner i share a node id; a model of the pending checkpoint decides when publication must happen (awaited on the store's own CheckpointEvents) and when it must not, and checks the published file entry by entry (one entry per operator, the first acknowledgement's split states of each runner, id strictly above everything published); non-trivial = >=1 checkpoint published and >=1 bad acknowledgement"}, gen, exec)
+	hx.Run(t, hx.Spec{Prop: "C12", Rule: "snapshots.Store over a journaling in-memory StorageLocation with assemblies of 1..4 operators and 1..4 source runners: 2..50 calls of CreateCheckpoint / CreateSavepoint / AddOperatorSnapshot / AddSourceSnapshot (expected, duplicate, foreign senders; pending, stale, future ids) / restart (new Store + LoadCheckpoint) / a storage fault at the next job-snapshot write (then no part of the publication may happen: no event, no retention announcement, CurrentCheckpoint unchanged) / a new assembly (AbandonPendingSnapshot + RegisterSourceSplitter, as jobs.Job.start does; the abandoned id stays used and later acknowledgements for it are foreign); in a quarter of the cases operator i and source runner i share a node id; a model of the pending checkpoint decides when publication must happen (awaited on the store's own CheckpointEvents) and when it must not, and checks the published file entry by entry (one entry per operator, the first acknowledgement's split states of each runner, id strictly above everything published); non-trivial = >=1 checkpoint published and >=1 bad acknowledgement"}, gen, exec)
 }
